@@ -10,7 +10,7 @@
 //   pool <sizeof> <alignof> <S> : a;ao;f<k>;fn;fx;fe;fb  Pool<Elem,S>             (f<k>: free the k-th live block;
 //                                                           ao: allocate while operator new throws; fe/fb: free of the
 //                                                           address just behind / in front of the newest chunk's storage)
-//   pa <sizeof> <alignof> <s> : a;ao;n<n>;f<k>;fn        PoolAllocator<Elem,s>    (n<n>: allocate(n))
+//   pa <sizeof> <alignof> <s> : a;ao;n<n>;f<k>;d<k>;fn   PoolAllocator<Elem,s>    (n<n>: allocate(n); d<k>: deallocate(p, 0))
 //   malloc <sizeof> <alignof> : a<n>;f<k>                MallocAllocator<Elem>
 //   aligned <sizeof> <alignof> <A> : a<n>;f<k>           AlignedAllocator<Elem,A> (A=0: default)
 //   debug <sizeof> <alignof> <page> : a<n>;f<k>;z<k>     DebugAllocator<Elem>     (z<k>: deallocate(p, 0))
@@ -90,6 +90,11 @@ void* operator new(size_t n) { return dvNew(n, 1); }
 void* operator new[](size_t n) { return dvNew(n, 1); }
 void* operator new(size_t n, std::align_val_t a) { return dvNew(n, (size_t)a); }
 void* operator new[](size_t n, std::align_val_t a) { return dvNew(n, (size_t)a); }
+static void* dvNewNothrow(size_t n, size_t al) noexcept { try { return dvNew(n, al); } catch (std::bad_alloc&) { return nullptr; } }
+void* operator new(size_t n, const std::nothrow_t&) noexcept { return dvNewNothrow(n, 1); }
+void* operator new[](size_t n, const std::nothrow_t&) noexcept { return dvNewNothrow(n, 1); }
+void* operator new(size_t n, std::align_val_t a, const std::nothrow_t&) noexcept { return dvNewNothrow(n, (size_t)a); }
+void* operator new[](size_t n, std::align_val_t a, const std::nothrow_t&) noexcept { return dvNewNothrow(n, (size_t)a); }
 void operator delete(void* p) noexcept { dvDelete(p); }
 void operator delete[](void* p) noexcept { dvDelete(p); }
 void operator delete(void* p, size_t) noexcept { dvDelete(p); }
@@ -192,6 +197,8 @@ struct PoolIface {
   virtual void* allocate() = 0;
   virtual void* allocateN(size_t n) = 0;
   virtual void free(void* p) = 0;
+  virtual void deallocate0(void*) {}
+  virtual std::string header() { return ""; }
   virtual ~PoolIface() {}
 };
 template <class T, size_t S>
@@ -218,6 +225,8 @@ struct PAImpl : PoolIface {
   void* allocate() override { return pa.allocate(1); }
   void* allocateN(size_t n) override { return pa.allocate(n); }
   void free(void* p) override { pa.deallocate(static_cast<T*>(p), 1); }
+  void deallocate0(void* p) override { pa.deallocate(static_cast<T*>(p), 0); }
+  std::string header() override { return "max=" + std::to_string(pa.max_size()) + " "; }
 };
 
 struct RawIface {
@@ -426,7 +435,21 @@ static Result execPool(bool isPA, size_t sz, size_t al, size_t S, const std::vec
         live.erase(live.begin() + (long)k);
         sh.remove((uintptr_t)b.p);
         for (size_t i = 0; i < b.bytes; ++i) b.p[i] = 0xDD;   // what a destroyed object may leave behind
-        g_track = true; pool->free(b.p); g_track = false;
+        g_track = true;
+        try { pool->free(b.p); } catch (std::bad_alloc&) {
+          g_track = false;
+          sh.bad("op " + std::to_string(opno) + ": giving back a live block was refused");
+          throw;
+        }
+        g_track = false;
+        outs.push_back("ok");
+      } else if (op[0] == 'd' && isPA) {
+        // deallocate(p, 0) gives nothing back: the block stays live
+        unsigned long long k;
+        if (!parseNum(op, 1, k)) return badCase("op");
+        if (k >= live.size()) { outs.push_back("-"); dv::stat("op_skipped"); continue; }
+        dv::stat("op_pa_dealloc_0");
+        g_track = true; pool->deallocate0(live[k].p); g_track = false;
         outs.push_back("ok");
       } else if (op[0] == 'n' && isPA) {
         unsigned long long n;
@@ -452,13 +475,14 @@ static Result execPool(bool isPA, size_t sz, size_t al, size_t S, const std::vec
   dv::stat("pool_live_at_destroy", (long)live.size());
   int chunks = g_nrecs;
   std::vector<long> geo = pool->geo;
+  std::string hdr = pool->header();
   g_track = true; delete pool; g_track = false;
   int released = 0;
   for (int i = 0; i < g_nrecs; ++i) if (!g_recs[i].alive) ++released;
   if (released != chunks) sh.bad("destroying the pool released " + std::to_string(released) + " of " + std::to_string(chunks) + " chunks");
   if (g_recOverflow) sh.bad("harness: chunk table overflow");
   dv::stat("pool_chunks", chunks);
-  res.impl = "geo=" + listStr(geo) + " : " + join(outs.begin(), outs.end(), ";") + " : chunks=" + std::to_string(chunks) + " released=" + std::to_string(released);
+  res.impl = hdr + "geo=" + listStr(geo) + " : " + join(outs.begin(), outs.end(), ";") + " : chunks=" + std::to_string(chunks) + " released=" + std::to_string(released);
   if (!sh.fail.empty()) res.oracle = "FAIL " + sh.fail;
   return res;
 }
@@ -710,6 +734,7 @@ static std::string genPoolOps(Rng& r, bool isPA, long elements, long maxOps) {
       if (elements > 0 && live % elements != 0) ++live;
       continue;
     }
+    if (isPA && x >= 95 && x < 97 && live > 0) { ops.push_back("d" + std::to_string(r.range(0, live - 1))); continue; }
     if (isPA && x < 7) {
       static const char* ns[] = {"n0", "n2", "n3", "n1", "n1", "n18446744073709551615", "n4294967297", "n9223372036854775808"};
       std::string s = ns[r.below(8)];
